@@ -151,6 +151,12 @@ func VerifC04Gate() {
 			verifAssert(serr == nil, "warm-up Stat failed")
 			f, oerr := fs.Open(p)
 			verifAssert(oerr == nil, "warm-up Open failed")
+			if p == "." || p == "a" {
+				// listings too (by name and through the handle)
+				_, lerr := hackpadfs.ReadDir(fs, p)
+				verifAssert(lerr == nil, "warm-up ReadDir failed")
+				_, _ = hackpadfs.ReadDirFile(f, -1)
+			}
 			_ = f.Close()
 		}
 	}
